@@ -5,6 +5,7 @@ import collections
 import datetime as _datetime
 import heapq
 import queue as _queue
+import threading as _threading
 import time as _time
 import types
 import uuid as _uuid
@@ -136,6 +137,60 @@ class SimThread(object):
 
   def setDaemon(self, d):
     self.daemon = d
+
+
+class _ForeignThread(object):
+  """what current_thread() answers for a simulated thread that was not made through threading.Thread
+  (the clients and the main thread of a world)"""
+  daemon = False
+
+  def __init__(self, ctl):
+    self._ctl = ctl
+    self.name = ctl.name if ctl is not None else 'MainThread'
+    self.ident = (ctl.idx + 1000) if ctl is not None else 1
+
+  def is_alive(self):
+    return self._ctl is None or self._ctl.state != DONE
+
+  def join(self, timeout=None):
+    raise RuntimeError('cannot join current thread')
+
+
+def sim_current_thread():
+  """threading.current_thread() as seen by miros: the Thread object miros created for the running thread"""
+  c = current_ctl()
+  if c is None:
+    return _threading.current_thread()
+  u = c.user
+  if isinstance(u, SimThread):
+    return u
+  table = c.sim.__dict__.setdefault('_foreign_threads', {})
+  ft = table.get(c.idx)
+  if ft is None:
+    ft = table[c.idx] = _ForeignThread(c)
+  return ft
+
+
+def sim_get_ident():
+  c = current_ctl()
+  if c is None:
+    return _threading.get_ident()
+  return c.idx + 1000
+
+
+def sim_enumerate():
+  s = current_sim()
+  if s is None:
+    return _threading.enumerate()
+  out = []
+  for t in s.threads:
+    if t.state != DONE:
+      out.append(t.user if isinstance(t.user, SimThread) else _ForeignThread(t))
+  return out
+
+
+def sim_active_count():
+  return len(sim_enumerate())
 
 
 # ------------------------------------------------------------------ Event, locks
